@@ -70,13 +70,28 @@ inline void shift_right(T *first, SizeType n, SizeType count) noexcept {
   (void)amc::uninitialized_relocate_n(first, n, first + count);
 }
 
+/// Undo 'shift_right(first, n, count)': bring the 'n' shifted elements back to 'first'.
+/// Requirements: slots between 'first + n' and 'first + count' (if any) are uninitialized memory
+template <class T, class SizeType, typename std::enable_if<!amc::is_trivially_relocatable<T>::value, bool>::type = true>
+void unshift_right(T *first, SizeType n, SizeType count) noexcept(is_shift_nothrow<T>::value) {
+  T *shifted = first + count;
+  (void)std::move(shifted, shifted + n, first);
+  amc::destroy(first + (count < n ? n : count), shifted + n);  // slots which were uninitialized before the shift
+}
+
+template <class T, class SizeType, typename std::enable_if<amc::is_trivially_relocatable<T>::value, bool>::type = true>
+inline void unshift_right(T *first, SizeType n, SizeType count) noexcept {
+  (void)amc::uninitialized_relocate_n(first + count, n, first);
+}
+
 /// Fill 'count' 'v' values at memory starting at 'first', with first 'n' slots on initialized memory,
 /// and next 'count - n' slots on uninitialized memory if there is overlap
 template <class T, class SizeType, typename std::enable_if<!amc::is_trivially_relocatable<T>::value, bool>::type = true>
 inline void fill_after_shift(T *first, SizeType n, SizeType count, const T &v) {
   if (n < count) {
-    std::uninitialized_fill_n(first + n, count - n, v);
+    // assign first: if a copy throws, the uninitialized part of the hole is still uninitialized
     std::fill_n(first, n, v);
+    std::uninitialized_fill_n(first + n, count - n, v);
   } else {
     std::fill_n(first, count, v);
   }
@@ -1283,7 +1298,12 @@ class VectorImpl : public VectorDestr<T, Alloc, SizeType, WithInlineElements, Gr
         // 'v' may refer to an element which is about to be shifted: take its value first
         const T valueCopy(newV);
         shift_right(pos, nElemsToShift, count);
-        fill_after_shift(pos, nElemsToShift, count, valueCopy);
+        try {
+          fill_after_shift(pos, nElemsToShift, count, valueCopy);
+        } catch (...) {
+          unshift_right(pos, nElemsToShift, count);
+          throw;
+        }
       }
       this->setSize(this->size() + count);
     } else {
@@ -1453,7 +1473,12 @@ class VectorImpl : public VectorDestr<T, Alloc, SizeType, WithInlineElements, Gr
         amc::uninitialized_copy_n(first, count, pos);
       } else {
         shift_right(pos, nElemsToShift, static_cast<SizeType>(count));
-        copy_after_shift(first, nElemsToShift, static_cast<SizeType>(count), pos);
+        try {
+          copy_after_shift(first, nElemsToShift, static_cast<SizeType>(count), pos);
+        } catch (...) {
+          unshift_right(pos, nElemsToShift, static_cast<SizeType>(count));
+          throw;
+        }
       }
       this->setSize(static_cast<SizeType>(this->size() + count));
     } else {
